@@ -290,6 +290,16 @@ def whereTripled (i j k : SInfo) : Bool :=
   | some B => !B.isConst && (match (indexingInfo B (bsizeK B [i.seen.size, j.seen.size, k.seen.size])).size with | .known _ => true | _ => false)
   | none => false
 
+/-! ### number literals as operands; three-operand broadcasting -/
+
+/-- a number literal as an operand: shape None (rank 0, every broadcast leaves the partner unchanged), size type ct<1> -/
+def scalarInfo : SInfo := ⟨.const [], .known 1⟩
+
+/-- one view of `view::broadcast_arrays(p, q, r)` = `broadcast_to(p, bcast_shape, bcast_size)` (view/broadcast_arrays.hpp:18-36) -/
+def transferBroadcast3 (i j k : SInfo) : Option SInfo :=
+  (broadcastShapeK3 i.seen.shape j.seen.shape k.seen.shape).map (fun B =>
+    indexingInfo B (bsizeK B [i.seen.size, j.seen.size, k.seen.size]))
+
 /-! ### matmul (operands of rank >= 2) -/
 
 def splitLast2 (s : Shape) : Option (Shape × Nat × Nat) :=
